@@ -69,7 +69,8 @@ def recount(records, exons, introns, delta, group_of):
             if len(rex) < 2:
                 continue
             hi = f[0] >= first_end and f[1] <= last_start
-            lo = f[0] > first_end + delta and f[1] < last_start - delta
+            # certainly skipped: well inside the read's inner span, or lying entirely within ONE intron of the read (however close to its ends)
+            lo = (f[0] > first_end + delta and f[1] < last_start - delta) or any(rex[i_][1] < f[0] and f[1] < rex[i_ + 1][0] for i_ in range(len(rex) - 1))
             if hi:
                 cell[3] += 1
             if lo:
@@ -120,6 +121,28 @@ def run(chk, scratch):
         # twin features: annotated introns / exons that differ by 2..6 bp at one boundary, with reads exactly between the two
         n0 = len(w.reads)
         world2.add_twin_loci(w, per_chrom=3)
+        # annotated exons that hug a neighbouring exon from inside the intron: an alternative first exon beginning 2-5 bp after the end of the
+        # first exon of another isoform, and one ending 2-5 bp before the start of its last exon; reads of the isoform that skips both
+        from vlib.world import Gene as _G, Transcript as _T
+        for ci_, chrom_ in enumerate(w.chrom_order):
+            p_ = max([g_.end for g_ in w.genes if g_.chrom == chrom_] + [1000]) + 3000
+            if p_ + 4000 > w.chrom_len(chrom_):
+                continue
+            st_ = "+-"[ci_ % 2]
+            off_ = 2 + (seed + ci_) % 4
+            e1, e3 = (p_, p_ + 200), (p_ + 2000, p_ + 2300)
+            g_ = _G("HUG%d" % (ci_ + 1), chrom_, st_)
+            g_.transcripts.append(_T(g_.id + ".t1", g_.id, chrom_, st_, [e1, e3], True, "skips-hugging-exons"))
+            g_.transcripts.append(_T(g_.id + ".t2", g_.id, chrom_, st_, [(e1[1] + off_, e1[1] + 100), (p_ + 1000, p_ + 1100), e3], True, "hugging-exon-after-first"))
+            g_.transcripts.append(_T(g_.id + ".t3", g_.id, chrom_, st_, [e1, (p_ + 1000, p_ + 1100), (e3[0] - 100, e3[0] - off_)], True, "hugging-exon-before-last"))
+            for t_ in g_.transcripts:
+                for intr in t_.introns:
+                    w.plant_sites(chrom_, intr, st_)
+            w.genes.append(g_)
+            for j_ in range(7):
+                w.make_read(chrom_, [(e1[0] + 3 * j_, e1[1]), (e3[0], e3[1] - 2 * j_)], truth={"src": g_.id + ".t1", "class": "exact"})
+            for j_ in range(3):
+                w.make_read(chrom_, list(g_.transcripts[1].exons), truth={"src": g_.id + ".t2", "class": "exact"})
         for i, rd in enumerate(w.reads[n0:]):
             rd.tags = [("RG", "g%d" % (i % 3))]
             rd.file_idx = i % 2
